@@ -1174,23 +1174,23 @@ pub fn run(ctx: &mut Ctx) {
     }
     let mut rng = ctx.rng.fork();
     other::corpus(ctx);
-    let dicts = ctx.budget(1000, 12000);
+    let dicts = ctx.budget(700, 12000);
     for _ in 0..dicts {
         one_dictionary(ctx, &mut rng, 40);
     }
-    let seqs = ctx.budget(1500, 20000);
+    let seqs = ctx.budget(1000, 20000);
     for _ in 0..seqs {
         other::insertion_order(ctx, &mut rng);
     }
-    let merges = ctx.budget(500, 6000);
+    let merges = ctx.budget(300, 6000);
     for _ in 0..merges {
         other::merges(ctx, &mut rng);
     }
-    let fsts = ctx.budget(200, 3000);
+    let fsts = ctx.budget(150, 3000);
     for _ in 0..fsts {
         other::fst_termdict(ctx, &mut rng);
     }
-    let cols = ctx.budget(100, 1500);
+    let cols = ctx.budget(80, 1500);
     for _ in 0..cols {
         other::columnar(ctx, &mut rng);
     }
